@@ -580,8 +580,105 @@ LL_HEADER = (
 )
 
 
+# ---- history kind 'bootstrap': the same BIOGEME object after estimate(run_bootstrap=True), completed or
+# interrupted by a fault in the k-th optimize call; the engine must again sum over ALL individuals once.
+def gen_hist_cases(rng, kmax, smax):
+    K = rng.randint(5, max(5, kmax))
+    vals, scale, dtype = gen_id_values(rng, K)
+    vals = order_values(rng, vals)
+    sizes = [rng.randint(1, smax) for _ in range(K)]
+    col = blocks_to_column(vals, sizes)
+    n = len(col)
+    x = [(2 * j + 33) / 16.0 for j in rng.sample(range(2 * n + 20), n)]          # distinct, >= 2.06
+    y = [rng.choice([-1, 1]) * (2 * rng.randrange(8) + 1) / 16.0 for _ in col]  # |y| <= 15/16, mixed signs
+    bs = rng.choice([3, 4, 5])
+    base = {'history': 'bootstrap', 'ids': col, 'scale': scale, 'dtype': dtype, 'x': x, 'y': y, 'kind': 'xpby',
+            'beta': rng.choice([-1.25, -0.5, 0.25, 0.75, 1.5]), 'R': 1, 'bootstrap_samples': bs,
+            'threads': rng.choice([1, 2, 3, 4]), 'np_seed': rng.randrange(10 ** 6), 'variant': 'bootstrap-completed',
+            'fault_at': None}
+    hit = dict(base)
+    hit['fault_at'] = rng.randint(2, bs + 1)
+    hit['variant'] = 'bootstrap-interrupted'
+    return [base, hit]
+
+
+def hist_oracle(c, r):
+    bad = []
+    if 'runner' in r:
+        return [('runner-exception', f"{r['runner']}", None, r['runner'])]
+    if not r['panel']['ok']:
+        return [('refused-contiguous', 'Database.panel refused a contiguous column', None, r['panel'])]
+    if not r['build']['ok']:
+        return [('history-exception-build', f"{r['build'].get('exc')}: {r['build'].get('msg')}", None, r['build'])]
+    inds, plain, _ = expected(c)
+    N = len(inds)
+    logs = {i: math.log(plain[i]) for i in inds}       # math.log of an exact Fraction (correctly rounded float first)
+    S = math.fsum(logs.values())
+    mag = N + sum(abs(v) for v in logs.values())
+    want = 'interrupted' if c.get('fault_at') else 'completed'
+    if r['estimate']['ok'] and r['estimate']['v'] != want:
+        bad.append(('history-not-run', f"estimate {r['estimate']['v']}, the harness wanted {want}", want, r['estimate']))
+
+    def fl(v):
+        return float(Fraction(v[0], v[1])) if isinstance(v, list) else float('nan')
+    for key in ('ll_before', 'll_after', 'lld_after', 'll_after_sim'):
+        if not r[key]['ok']:
+            bad.append((f'history-exception-{key}', f"{r[key].get('exc')}: {r[key].get('msg')}", S, r[key]))
+        elif not abs(fl(r[key]['v']) - S) <= TOL_F * mag:
+            bad.append((f'history-bootstrap-{key}',
+                        f"after estimate(run_bootstrap=True) {want}, the log likelihood of the same BIOGEME object is not "
+                        f"the sum over all {N} individuals (each once) of the log of the product over its rows", S, fl(r[key]['v'])))
+    if r['ll_after_scaled']['ok'] and not abs(fl(r['ll_after_scaled']['v']) * N - S) <= TOL_F * mag:
+        bad.append(('history-bootstrap-scaled', f'scaled log likelihood is not total / number of individuals ({N})',
+                    S / N, fl(r['ll_after_scaled']['v'])))
+    if not r['sim_after']['ok']:
+        bad.append(('history-exception-simulate', f"{r['sim_after'].get('exc')}: {r['sim_after'].get('msg')}", None, r['sim_after']))
+    else:
+        sim = r['sim_after']['v']
+        if sim['index'] != inds:
+            bad.append(('history-result-index', 'simulate does not return one row per individual', inds, sim['index']))
+        else:
+            for j, i in enumerate(inds):
+                if not closeF(frac(sim['traj'][j]), plain[i]):
+                    bad.append(('history-trajectory-value', f'individual {i}: trajectory after the bootstrap is not the '
+                                f'product over its rows', str(plain[i]), sim['traj'][j]))
+                if not abs(fl(sim['loglike'][j]) - logs[i]) <= TOL_F * (1 + abs(logs[i])):
+                    bad.append(('history-log-value', f'individual {i}: log of the trajectory after the bootstrap', logs[i],
+                                sim['loglike'][j]))
+    if r['sample_size']['ok'] and r['sample_size']['v'] != N:
+        bad.append(('sample-size', 'get_sample_size() is not the number of individuals', N, r['sample_size']['v']))
+    return bad
+
+
+def coq_hist_case(c, r):
+    if 'runner' in r or not r['panel']['ok'] or not r.get('build', {}).get('ok'):
+        return None
+    if not all(r[k]['ok'] for k in ('sim_after', 'map', 'sample_size')):
+        return None
+    sim = r['sim_after']['v']
+    if any(not isinstance(v, list) for v in sim['traj']) or any(i is None for i in sim['index']):
+        return None
+    rv = rowvals(c)
+    prow = coq_list([f'(({i}), ({coq_Q(p0)}, {coq_Q(Fraction(0))}))' for i, (p0, _, _) in zip(c['ids'], rv)])
+    m = coq_list([f'(({e[0]}), {e[1]}%nat, {e[2]}%nat)' for e in r['map']['v']])
+    return f"({prow}, {coq_obs(sim['index'], sim['traj'])}, {m}, {r['sample_size']['v']}%nat)"
+
+
+HIST_HEADER = (
+    'From Coq Require Import ZArith List QArith.\nFrom BV Require Import Model.Panel.\nImport ListNotations.\n'
+    'Open Scope Z_scope.\n'
+    'Definition tol : Q := Qmake 1 1000000000000.\n'
+    'Definition chk (c : list Qrow * list (Z * Q) * list block * nat) : bool :=\n'
+    "  let '(prow, otraj, m, ss) := c in\n"
+    '  close_all tol otraj (model_plain prow) && list_eqb block_eqb m (build_map (ids_of prow))\n'
+    '  && Nat.eqb ss (sample_size (ids_of prow)).\n'
+)
+
+
 def cross_variant_oracle(ctx, group):
     """values follow the individuals under every reordering; totals agree"""
+    if len(group) < 2:
+        return
     base_c, base_r = group[0]
     if 'runner' in base_r or not base_r['panel']['ok'] or not base_r['sim']['ok']:
         return
@@ -627,7 +724,8 @@ def stream_panel_ll(ctx):
                     '(2j+9)/16 (large tables: (2j+33)/64) per column; formulas x, b*x, x+b*y (and with one tagged draw: *xi, x+b*y*xi); b in {.5,.75,1.25,1.5,2}; '
                     '1-16 draws; 1-4 threads; each base case also with individuals permuted, rows permuted inside '
                     'individuals, both, and identifiers negated (reverse order); paths simulate / calculate_likelihood / '
-                    'get_value_c; non-trivial = at least 2 individuals and one individual with >= 2 rows; distinct by full case')
+                    'get_value_c; plus histories: one BIOGEME object, estimate(run_bootstrap=True) completed / interrupted by a fault '
+                    'injected in the k-th optimize call (k>=2), then likelihood and simulate on the same object; non-trivial = at least 2 individuals and one individual with >= 2 rows; distinct by full case')
     rng = ctx.sub_rng('panel_ll')
     groups = []
     for c in load_corpus('ll'):
@@ -635,32 +733,43 @@ def stream_panel_ll(ctx):
     for _ in range(ctx.n(40, 400)):
         base = gen_ll_base(rng, ctx.n(6, 20), ctx.n(4, 10))
         groups.append([base] + [variant(rng, base, k) for k in ('ind', 'rows', 'both', 'relabel')])
+    for _ in range(ctx.n(4, 30)):
+        for c in gen_hist_cases(rng, ctx.n(7, 12), ctx.n(3, 6)):
+            groups.append([c])
     cases = [c for g in groups for c in g]
     res = run_impl(ctx, 'c09_ll.py', cases,
                    lambda msg: {'runner': {'ok': False, 'exc': 'subprocess died', 'msg': msg}})
-    items = []
+    items, hitems = [], []
     for idx, (c, r) in enumerate(zip(cases, res)):
         sizes = [len(rows) for _, rows in blocks_of(c)]
         st.record(c, nontrivial=len(sizes) >= 2 and max(sizes) >= 2)
-        for what, detail, exp, obs in ll_oracle(c, r):
+        hist = c.get('history') == 'bootstrap'
+        for what, detail, exp, obs in (hist_oracle(c, r) if hist else ll_oracle(c, r)):
             ctx.violation(f'C09/panel_ll/{what}', detail,
                           {'stream': 'panel_ll', 'case': c, 'table': {'pid': c['ids'], 'x': c['x'], 'y': c['y']}},
                           exp, obs, how='./check C09 --replay <this file>')
-        t = coq_ll_case(c, r)
+        t = coq_hist_case(c, r) if hist else coq_ll_case(c, r)
         if t is None:
             st.disagree(c, 'per-individual values', r, 'implementation output not encodable (exception / non-finite value)')
             continue
-        items.append((idx, t))
+        (hitems if hist else items).append((idx, t))
     pos = 0
     for g in groups:
         cross_variant_oracle(ctx, list(zip(g, res[pos:pos + len(g)])))
         pos += len(g)
     verdict = run_coq_bools(ctx, st, 'pll', LL_HEADER, items, 60)
+    verdict.update(run_coq_bools(ctx, st, 'phist', HIST_HEADER, hitems, 60))
     for idx, b in verdict.items():
         if not b:
             st.disagree(cases[idx], 'model_plain / model_mc / build_map / sample_size over Q (relative 1e-12)', res[idx])
     st.extra['variants'] = {k: sum(1 for c in cases if c.get('variant') == k)
-                            for k in ('base', 'ind', 'rows', 'both', 'relabel')}
+                            for k in ('base', 'ind', 'rows', 'both', 'relabel', 'corpus', 'bootstrap-completed',
+                                      'bootstrap-interrupted')}
+    st.extra['history_estimate_outcomes'] = {}
+    for c, r in zip(cases, res):
+        if c.get('history') == 'bootstrap' and isinstance(r.get('estimate'), dict):
+            k = str(r['estimate'].get('v') or r['estimate'].get('exc'))
+            st.extra['history_estimate_outcomes'][k] = st.extra['history_estimate_outcomes'].get(k, 0) + 1
     st.extra['threads'] = {str(t): sum(1 for c in cases if c['threads'] == t) for t in (1, 2, 3, 4)}
     if st.disagreements:
         ctx.stream_broken('panel_ll', f'{len(st.disagreements)} disagreements, first: '
@@ -688,7 +797,7 @@ def replay(ctx, path):
         bad = map_oracle(c, r)
     else:
         r = ctx.impl('c09_ll.py', [c])[0]
-        bad = [b[:2] for b in ll_oracle(c, r)]
+        bad = [b[:2] for b in (hist_oracle(c, r) if c.get('history') == 'bootstrap' else ll_oracle(c, r))]
         if wit.get('base'):
             class V:  # collect cross-variant violations without touching the verdict machinery
                 def __init__(self):
